@@ -391,20 +391,6 @@ def F1_gap(style, lines) -> bool:
     return style == "numpy" and all(not l.strip() for l in lines)
 
 
-def crash_finding(style, r, parent_kind, model_out) -> str | None:
-    """Classify an exception of the implementation against the known crash findings (item-level code the model does
-    not cover). C12-F7: numpy Returns/Receives index the parent's 2-element tuple annotation with the item index.
-    Input predicate: numpy style, a parent whose return annotation is a tuple / Generator / Iterator expression, and
-    (by the model's reading of the text) a returns or receives section with at least three items; plus the raising site."""
-    if r["status"] != "err" or style != "numpy" or r["error"] != "IndexError":
-        return None
-    if r["where"] not in ("_read_returns_section", "_read_receives_section") or parent_kind not in EXPR_PARENTS:
-        return None
-    if model_out and model_out[0] == "ok" and any(s[0] in ("returns", "receives") and s[2] >= 3 for s in model_out[2]):
-        return "C12-F7"
-    return None
-
-
 # ---------------------------------------------------------------- evaluation of a batch of cases
 def evaluate(ctx, cases, stream):
     """cases: list of (style, text, opts, parent_kind)."""
@@ -449,7 +435,7 @@ def evaluate(ctx, cases, stream):
         # (C) model vs implementation
         if mo[0] == "err":
             ctx.observe("model_result", f"{style}:err:{mo[2]}")
-            if not (r["status"] == "err" and r["error"] == mo[2] and r["where"] not in ("_read_returns_section", "_read_receives_section")):
+            if not (r["status"] == "err" and r["error"] == mo[2]):
                 ctx.tie_failure("correspondence", f"{style}: model raises {mo[2]}", {"impl": r["status"], "error": r["error"]}, case)
         else:
             for s in mo[2]:
@@ -464,14 +450,12 @@ def evaluate(ctx, cases, stream):
                 if not sections_agree(style, exp, r["canon"]):
                     ctx.tie_failure("correspondence", f"{style}: sections(model) vs Docstring.parse",
                                     {"model": exp, "impl": r["canon"]}, case)
-            elif crash_finding(style, r, pk, mo):
-                ctx.count("correspondence_skipped_known_crash")      # item-level annotation look-up is outside the model
             elif r["status"] != "ok":
                 ctx.tie_failure("correspondence", f"{style}: model returns sections, implementation {r['status']} {r['error']}",
                                 {"model": mo[2]}, case)
         # direct evaluation of the property on the implementation
         for p in r["problems"]:
-            ctx.property_failure(case, {"problem": p, "lines": [l[:200] for l in lines[:14]]}, finding=crash_finding(style, r, pk, mo))
+            ctx.property_failure(case, {"problem": p, "lines": [l[:200] for l in lines[:14]]})
         if r["status"] == "ok" and r["canon"] is not None and is_plain(style, lines, opts, pk):
             ctx.count("plain_cases")
             want = plain_expectation(style, lines, opts, pk)
@@ -525,6 +509,8 @@ def gen_structured(rng, style):
         lines.append(rng.choice(["Summary.", "Do a thing.", "int: The value.", "Title:", "Summary: more"]))
         if rng.random() < 0.8:
             lines.append("")
+            if rng.random() < 0.15:
+                lines.append("")
     if rng.random() < 0.4:
         lines += [rng.choice(["Some prose.", "More prose: here.", "```", "    indented prose"])] + ([""] if rng.random() < 0.7 else [])
     for _ in range(rng.randint(0, 3)):
@@ -665,8 +651,6 @@ def known_witness(ctx):
         r = run_impl(style, witness_text(w), w.get("options", {}), w.get("parent", "none"))
         if fid == "C12-F1":
             ctx.witness(fid, r["status"] == "ok" and r["canon"] == [])
-        elif fid == "C12-F7":
-            ctx.witness(fid, r["status"] == "err" and r["error"] == "IndexError" and r["where"] == "_read_returns_section")
 
 
 def corpus_cases():
